@@ -82,6 +82,8 @@ func refCoerce(t *Ty, v hx.Sexp) (hx.Sexp, bool) {
 	switch t.K {
 	case "scalar":
 		return refScalar(t.Name, v)
+	case "custom":
+		return refCustom(t.Name, v)
 	case "enum":
 		if tag(v) == "enum" {
 			for _, n := range t.Vals {
@@ -129,7 +131,7 @@ func refCoerce(t *Ty, v hx.Sexp) (hx.Sexp, bool) {
 		}
 		names := []string{}
 		vals := map[string]hx.Sexp{}
-		for _, f := range t.Fields {
+		for _, f := range t.Def.Fields {
 			if fv, ok := given[f.Name]; ok {
 				c, ok := refCoerce(f.Ty, fv)
 				if !ok {
@@ -150,9 +152,54 @@ func refCoerce(t *Ty, v hx.Sexp) (hx.Sexp, bool) {
 		for _, n := range names {
 			out = append(out, kv(n, vals[n]))
 		}
-		return hx.N("obj", out...), true
+		m := hx.N("obj", out...)
+		if t.Def.Hooked {
+			// the hook sees the complete coerced map; its error is a coercion error, its result the value
+			if hookRejects(m) {
+				return hx.Sexp{}, false
+			}
+			return hookWrap(t.Name, m), true
+		}
+		return m, true
 	}
 	panic("bad type")
+}
+
+// ---- the symbolic hook and custom scalars (specification side) -------------------------------------
+
+func hookRejects(m hx.Sexp) bool {
+	for _, e := range m.List[1:] {
+		if s := e.List[1].String(); s == "(str reject)" || s == "(int 13)" {
+			return true
+		}
+	}
+	return false
+}
+
+func hookWrap(name string, m hx.Sexp) hx.Sexp {
+	return hx.N("obj", kv("$fields", m), kv("$hook", hx.N("str", hx.A(name))))
+}
+
+func customWrap(name string, v hx.Sexp) hx.Sexp {
+	return hx.N("obj", kv("$scalar", hx.N("str", hx.A(name))), kv("$value", v))
+}
+
+// refCustom: Even = an even integer in the int64 range; Tag = a non-empty string.
+func refCustom(name string, v hx.Sexp) (hx.Sexp, bool) {
+	switch name {
+	case "Even":
+		if tag(v) == "int" {
+			z := bigOf(v.List[1])
+			if z.Bit(0) == 0 && within(z, bigMinInt64, bigMaxInt64) {
+				return customWrap("Even", v), true
+			}
+		}
+	case "Tag":
+		if tag(v) == "str" && v.List[1].Atom != "" {
+			return customWrap("Tag", v), true
+		}
+	}
+	return hx.Sexp{}, false
 }
 
 // refArg is CoerceArgumentValues for one argument: v == nil means "no value supplied" (argument
@@ -180,6 +227,22 @@ func conformsGo(t *Ty, x hx.Sexp) bool {
 		return true
 	}
 	switch t.K {
+	case "custom":
+		// "an output of the coercer": the wrapper of this scalar around a value the coercer accepts
+		if tag(x) != "obj" || len(x.List) != 3 || x.List[1].List[0].Atom != "$scalar" || x.List[2].List[0].Atom != "$value" {
+			return false
+		}
+		if x.List[1].List[1].String() != hx.N("str", hx.A(t.Name)).String() {
+			return false
+		}
+		val := x.List[2].List[1]
+		switch t.Name {
+		case "Even":
+			return tag(val) == "int" && bigOf(val.List[1]).Bit(0) == 0 && within(bigOf(val.List[1]), bigMinInt64, bigMaxInt64)
+		case "Tag":
+			return tag(val) == "str" && val.List[1].Atom != ""
+		}
+		return false
 	case "scalar":
 		k := tag(x)
 		switch t.Name {
@@ -223,6 +286,17 @@ func conformsGo(t *Ty, x hx.Sexp) bool {
 		if tag(x) != "obj" {
 			return false
 		}
+		if t.Def.Hooked {
+			// the hook's result on a complete conforming map it accepts
+			if len(x.List) != 3 || x.List[1].List[0].Atom != "$fields" || x.List[2].List[0].Atom != "$hook" ||
+				x.List[2].List[1].String() != hx.N("str", hx.A(t.Name)).String() {
+				return false
+			}
+			x = x.List[1].List[1]
+			if tag(x) != "obj" || hookRejects(x) {
+				return false
+			}
+		}
 		seen := map[string]hx.Sexp{}
 		for _, e := range x.List[1:] {
 			if t.field(e.List[0].Atom) == nil {
@@ -230,7 +304,7 @@ func conformsGo(t *Ty, x hx.Sexp) bool {
 			}
 			seen[e.List[0].Atom] = e.List[1]
 		}
-		for _, f := range t.Fields {
+		for _, f := range t.Def.Fields {
 			if v, ok := seen[f.Name]; ok {
 				if !conformsGo(f.Ty, v) {
 					return false
@@ -254,6 +328,15 @@ func faithful(t *Ty, v hx.Sexp) bool {
 	}
 	t = nullable(t)
 	switch t.K {
+	case "custom":
+		// Even takes integers only (JSON 2.0 is 2), Tag takes strings (a bare name written in JSON is a string)
+		switch tag(v) {
+		case "half":
+			return t.Name != "Even" || new(big.Int).Rem(bigOf(v.List[1]), big.NewInt(2)).Sign() != 0
+		case "enum":
+			return t.Name != "Tag"
+		}
+		return true
 	case "scalar":
 		switch tag(v) {
 		case "half":
